@@ -2,7 +2,8 @@
 (***************************************************************************)
 (* The template group as a state machine (C20, C13): a map from paths to   *)
 (* template sources and one from paths to scripts, built by any history    *)
-(* of AddTmpl / AddScript / RemoveTmpl / ImportGroup, and emitted by       *)
+(* of AddTmpl / AddScript / RemoveTmpl / SetInline / ImportGroup, with     *)
+(* observations (Observe) anywhere in between, and emitted by              *)
 (* walking the maps.  The walk order of a hash map is arbitrary: `Emit`    *)
 (* takes it as a nondeterministic parameter.  The requirement (C20): the   *)
 (* emitted artefact is a function of the *set* of files — independent of   *)
@@ -42,12 +43,20 @@ AddScript(p, c) == /\ nops < MaxOps
 RemoveTmpl(p) == /\ nops < MaxOps /\ ~sub.open /\ p \in DOMAIN tmpls
                  /\ tmpls' = [q \in DOMAIN tmpls \ {p} |-> tmpls[q]] /\ nops' = nops + 1 /\ sub' = sub /\ scripts' = scripts
 SubBegin      == /\ nops < MaxOps /\ ~sub.open /\ sub' = [open |-> TRUE, m |-> Empty, s |-> Empty] /\ nops' = nops + 1 /\ tmpls' = tmpls /\ scripts' = scripts
+(* Emitting is an observation: it may happen at any point of a history and changes nothing (an emitter that keeps
+   anything from one emission to the next must give it up when the maps change). *)
+Observe       == /\ nops < MaxOps /\ nops' = nops + 1 /\ UNCHANGED <<tmpls, scripts, sub>>
+(* The inline script of a template is replaced in place: the group then equals one to which the file was added with
+   the new script ("x2" is content "x" with the other inline script). *)
+SetInline(p)  == /\ nops < MaxOps /\ ~sub.open /\ p \in DOMAIN tmpls /\ tmpls[p] = "x"
+                 /\ tmpls' = Put(tmpls, p, "x2") /\ nops' = nops + 1 /\ UNCHANGED <<scripts, sub>>
 ImportGroup   == /\ sub.open /\ tmpls' = Merge(tmpls, sub.m) /\ scripts' = Merge(scripts, sub.s) /\ sub' = NoSub /\ nops' = nops
 
 Next == \/ \E p \in Paths, c \in Contents : AddTmpl(p, c)
         \/ \E p \in ScriptPaths, c \in ScriptContents : AddScript(p, c)
         \/ \E p \in Paths : RemoveTmpl(p)
-        \/ SubBegin \/ ImportGroup
+        \/ SubBegin \/ ImportGroup \/ Observe
+        \/ \E p \in Paths : SetInline(p)
 Spec == Init /\ [][Next]_gvars
 
 (* all walk orders of the map *)
